@@ -134,6 +134,15 @@ def finite(x):
 def nat(k):
     return '%d%%nat' % k
 
+_seen = {}
+def report(ctx, tag, what, **kw):
+    """at most two violations per kind of failure; further ones are only counted (every failure is still a failed obligation)"""
+    _seen[tag] = _seen.get(tag, 0) + 1
+    if _seen[tag] <= 2:
+        ctx.violation(what, **kw)
+    else:
+        ctx.count('further failures of kind: ' + tag)
+
 # ------------------------------------------------------------------------------------------------------
 # (2) stream A: polynomial test functions
 
@@ -232,7 +241,7 @@ def run_hess_stream(ctx, cases):
         for cl in c['classes']:
             ctx.count('A.param=' + cl)
         if 'error' in r or not finite(r.get('hess')) or not finite(r.get('grad', [])):
-            ctx.violation('get_hess/get_grad/hessian_elem failed on a polynomial test function: %s' % (r.get('error') or 'non-finite result'),
+            report(ctx, 'A-error', 'get_hess/get_grad/hessian_elem failed on a polynomial test function: %s' % (r.get('error') or 'non-finite result'),
                           data={'stream': 'hess', 'case': c, 'impl': r})
             ctx.obligation('hess case %d runs' % c['id'], False, 'predicate', r.get('error', 'non-finite'))
             continue
@@ -269,7 +278,7 @@ def run_hess_stream(ctx, cases):
         ok = bad is None
         ctx.obligation('A%d exactness on polynomial (implementation)' % c['id'], ok, 'predicate', '' if ok else repr(bad))
         if not ok:
-            ctx.violation('finite-difference derivative of a %s polynomial is not exact: %r (eps=%r, p=%r)' % (c['kind'], bad, c['eps'], c['p']),
+            report(ctx, 'A-inexact', 'finite-difference derivative of a %s polynomial is not exact: %r (eps=%r, p=%r)' % (c['kind'], bad, c['eps'], c['p']),
                           data={'stream': 'hess', 'case': c, 'impl': r, 'exact_hess': [[float(x) for x in row] for row in Hx]})
         k = len(exprs)
         exprs.append((k, hcase_text(c, r)))
@@ -284,7 +293,7 @@ def run_hess_stream(ctx, cases):
         if not ok:
             nbad += 1
             if nbad <= 3:
-                ctx.violation('Godambe.%s disagrees with the model on a polynomial (eps=%r, p=%r)' % ('hessian_elem' if c['direct'] else 'get_hess/get_grad', c['eps'], c['p']),
+                report(ctx, 'A-model', 'Godambe.%s disagrees with the model on a polynomial (eps=%r, p=%r)' % ('hessian_elem' if c['direct'] else 'get_hess/get_grad', c['eps'], c['p']),
                               data={'stream': 'hess', 'case': c, 'impl': byid[c['id']], 'coq': rr})
 
 # ------------------------------------------------------------------------------------------------------
@@ -511,7 +520,7 @@ def run_pois_stream(ctx, base):
         if failed:
             rr = byid[failed[0]['id']]
             ctx.obligation('B%d %s runs' % (bid, c['fn']), False, 'predicate', rr['error'])
-            ctx.violation('Godambe.%s raised %s on a linear Poisson model' % (c['fn'], rr['error']),
+            report(ctx, 'B-error', 'Godambe.%s raised %s on a linear Poisson model' % (c['fn'], rr['error']),
                           data={'stream': 'pois', 'case': failed[0], 'impl': rr})
             continue
         if not r['boot_masks_equal']:
@@ -545,7 +554,7 @@ def run_pois_stream(ctx, base):
         ok = not glue
         ctx.obligation('B%d %s glue (theta augmentation, arguments, return values)' % (bid, c['fn']), ok, 'predicate', '; '.join(glue))
         if not ok:
-            ctx.violation('Godambe.%s: %s' % (c['fn'], glue[0]), data={'stream': 'pois', 'case': c, 'impl': r})
+            report(ctx, 'B-glue', 'Godambe.%s: %s' % (c['fn'], glue[0]), data={'stream': 'pois', 'case': c, 'impl': r})
         inner = r['inner'][0]
         order = 2 if central_everywhere(c, inner) else 1
         ctx.count('B.order=%d' % order)
@@ -555,7 +564,7 @@ def run_pois_stream(ctx, base):
         must_be_finite = order == 2 and C_ORDER2 * c['eps'] ** 2 * cf['cond'] < 0.25
         if not finite([inner['H'], inner.get('J', []), inner.get('cU', [])]) or (must_be_finite and not val_finite):
             ctx.obligation('B%d finite results' % bid, False, 'predicate', 'non-finite')
-            ctx.violation('Godambe.%s returned non-finite values on a well-conditioned linear Poisson model' % c['fn'],
+            report(ctx, 'B-nonfinite', 'Godambe.%s returned non-finite values on a well-conditioned linear Poisson model' % c['fn'],
                           data={'stream': 'pois', 'case': c, 'impl': r})
             continue
         if not val_finite:
@@ -625,7 +634,7 @@ def run_pois_stream(ctx, base):
         ctx.obligation('B%d %s vs closed forms within O(eps^%d), eps and eps/2' % (bid, c['fn'], order), ok, 'predicate', bad or '')
         ctx.obligations[-1]['worst'] = (worst, cf['cond'], c['eps'], c['fn'], noise, order, qlog, c['pclass'], c['log'], c['multinom'])
         if not ok:
-            ctx.violation('Godambe.%s on a linear Poisson model does not match its closed form: %s' % (c['fn'], bad),
+            report(ctx, 'B-closed-form', 'Godambe.%s on a linear Poisson model does not match its closed form: %s' % (c['fn'], bad),
                           data={'stream': 'pois', 'case': c, 'impl': r, 'impl_half_eps': rh,
                                 'closed': {kk: (vv.tolist() if hasattr(vv, 'tolist') else vv) for kk, vv in cf.items()}})
         # ---- O: bootstrap order
@@ -643,7 +652,7 @@ def run_pois_stream(ctx, base):
             ok = worstp <= lim
             ctx.obligation('B%d %s independent of bootstrap order' % (bid, c['fn']), ok, 'predicate', '' if ok else repr(diffs))
             if not ok:
-                ctx.violation('Godambe.%s depends on the order of the bootstraps: %r' % (c['fn'], diffs),
+                report(ctx, 'B-boot-order', 'Godambe.%s depends on the order of the bootstraps: %r' % (c['fn'], diffs),
                               data={'stream': 'pois', 'case': g['perm'], 'impl': rp, 'impl_original_order': r})
     # ---- run the Coq sides
     results = ctx.coq_cases('pois', HEADER_Q, pex, '(pcheck %s %s)' % (q(K_ABS), q(REL)),
@@ -657,7 +666,7 @@ def run_pois_stream(ctx, base):
         if not ok:
             nbad += 1
             if nbad <= 3:
-                ctx.violation('get_godambe (called by %s) disagrees with the model in H, J or cU' % c['fn'],
+                report(ctx, 'B-L1', 'get_godambe (called by %s) disagrees with the model in H, J or cU' % c['fn'],
                               data={'stream': 'pois', 'case': c, 'impl': byid[c['id']], 'coq': rr})
     results = ctx.coq_cases('trunc', HEADER_Q, tex, '(tcheck %s)' % q(Fraction(C_MODEL)),
                             'err(eps) <= %g eps^2 x scale and err(eps/2) <= 0.3 err(eps)' % C_MODEL, shard=ctx.pick(1, 4), timeout=1800,
@@ -677,7 +686,7 @@ def run_pois_stream(ctx, base):
         if not ok:
             nbad += 1
             if nbad <= 3:
-                ctx.violation('Godambe.%s: %s is not what the model computes from get_godambe\'s (H, J, cU)' % (c['fn'], what),
+                report(ctx, 'B-L2', 'Godambe.%s: %s is not what the model computes from get_godambe\'s (H, J, cU)' % (c['fn'], what),
                               data={'stream': 'pois', 'case': c, 'impl': byid[c['id']], 'coq': rr})
 
 C_ORDER2 = 40.0      # |stat(eps) - closed| <= C eps^2 (x condition number for the statistics); observed <= 6 eps^2 on the unchanged tree
@@ -726,7 +735,7 @@ def run_chi2_stream(ctx, replay_case=None):
             sc_ok = all('error' not in s and s['scalar'] and abs(s['val'][0] - chi2_closed(x, o['weights'])) <= 1e-12 for s, x in zip(scal, xs))
             ctx.obligation('C%d sum_chi2_ppf scalar inputs = closed form' % o['id'], sc_ok, 'predicate', '' if sc_ok else repr(scal))
             if not sc_ok:
-                ctx.violation('sum_chi2_ppf(scalar) differs from 1 - sum_d w_d P(chi2_d <= x)', data={'stream': 'chi2', 'case': o, 'impl': scal})
+                report(ctx, 'C-scalar', 'sum_chi2_ppf(scalar) differs from 1 - sum_d w_d P(chi2_d <= x)', data={'stream': 'chi2', 'case': o, 'impl': scal})
             if 'error' in r:
                 known = 'scalar_input' in r['error']
                 ctx.obligation('C%d sum_chi2_ppf accepts an array' % o['id'], False, 'predicate', r['error'])
@@ -742,13 +751,13 @@ def run_chi2_stream(ctx, replay_case=None):
                 ok = (not r['scalar']) and len(r['val']) == len(xs) and all('error' not in s and s['val'][0] == v for s, v in zip(scal, r['val']))
                 ctx.obligation('C%d sum_chi2_ppf array = scalar results' % o['id'], ok, 'predicate', '' if ok else repr((r, scal)))
                 if not ok:
-                    ctx.violation('sum_chi2_ppf gives different answers for array and scalar input', data={'stream': 'chi2', 'case': o, 'impl': r, 'scalar': scal})
+                    report(ctx, 'C-array-vs-scalar', 'sum_chi2_ppf gives different answers for array and scalar input', data={'stream': 'chi2', 'case': o, 'impl': r, 'scalar': scal})
             k += 1 + len(xs)
         else:
             ok = 'error' not in r and r['scalar'] and abs(r['val'][0] - chi2_closed(o['x'], o['weights'])) <= 1e-12
             ctx.obligation('C%d sum_chi2_ppf scalar = closed form' % o['id'], ok, 'predicate', '' if ok else repr(r))
             if not ok:
-                ctx.violation('sum_chi2_ppf(scalar) differs from the closed form', data={'stream': 'chi2', 'case': o, 'impl': r})
+                report(ctx, 'C-scalar2', 'sum_chi2_ppf(scalar) differs from the closed form', data={'stream': 'chi2', 'case': o, 'impl': r})
             k += 1
 
 # ------------------------------------------------------------------------------------------------------
@@ -898,7 +907,7 @@ def run_history_stream(ctx, histories):
         stale = fi in small or any(got[k][0] != 'error' and ref[j][0] != 'error' and got[k][1] == ref[j][1] for j in range(k))
         if not stale:
             ctx.obligations[obi].pop('known_key', None)
-            ctx.violation('history-dependent result that is not a stale cache hit: call %d (%s) of a %d-call history' % (k, h['ops'][k]['fn'], len(h['ops'])),
+            report(ctx, 'D-other', 'history-dependent result that is not a stale cache hit: call %d (%s) of a %d-call history' % (k, h['ops'][k]['fn'], len(h['ops'])),
                           data={'stream': 'history', 'ops': rep})
         elif reported < 1:
             # make sure the replay input reproduces in an interpreter of its own (allocation patterns differ from the batch)
